@@ -11,7 +11,7 @@ Trace == ndJsonDeserialize(IOEnv.VERIF_TRACE)
 
 TraceInit ==
   /\ sent = <<>> /\ stream = <<>> /\ buf = <<>> /\ out = <<>> /\ fault = "eof"
-  /\ res = Res("none", <<>>) /\ orig = <<>>
+  /\ res = Res("none", <<>>) /\ orig = <<>> /\ pending = 0
   /\ l = 1 /\ dead = TRUE /\ nviol = 0
 
 \* the leftover split a DecodeB event reports, clamped into what is possible
@@ -47,7 +47,7 @@ Reset ==
   /\ LET e == Trace[l] IN
        /\ sent' = e.sent /\ stream' = e.stream /\ orig' = e.stream
        /\ fault' = e.fault
-  /\ buf' = <<>> /\ out' = <<>> /\ res' = Res("none", <<>>)
+  /\ buf' = <<>> /\ out' = <<>> /\ res' = Res("none", <<>>) /\ pending' = 0
   /\ dead' = FALSE /\ UNCHANGED nviol
 
 Live ==
